@@ -352,6 +352,84 @@ def _zernike_weights_tie(im, R, deg, cm, z, scale):
     return out
 
 
+def _zernike_model_tie(im, R, deg, cm, z):
+    """the Lean Float instances of `znlG` / `zernikeZ` / `zernikeAbs` (the definitions `C19_zernike_rot90` is about)
+    against the real kernel `_zernike.znl` (same D, A, P arrays, built with the numpy statements of zernike.py) and the
+    real `zernike_moments`; `pow` is libm on both sides: 1e-9, never bit for bit. The selection mask uses only
+    + - * / sqrt and must agree exactly."""
+    from mahotas.features import _zernike
+    from mahotas.center_of_mass import center_of_mass
+    c0, c1 = cm if cm is not None else center_of_mass(im)
+    c0, c1 = float(c0), float(c1)
+    Y, X = np.mgrid[:im.shape[0], :im.shape[1]]
+    P = im.ravel()
+
+    def rescale(C, centre):
+        Cn = C.astype(np.double)
+        Cn -= centre
+        Cn /= R
+        return Cn.ravel()
+    Yn, Xn = rescale(Y, c0), rescale(X, c1)
+    Dn = Xn ** 2
+    Dn += Yn ** 2
+    np.sqrt(Dn, Dn)
+    np.maximum(Dn, 1e-9, out=Dn)
+    k = (Dn <= 1.) & (P > 0)
+    out = []
+    if not k.any():
+        return out
+    frac = np.array(P[k], np.double)
+    frac /= frac.sum()
+    Dk = Dn[k]
+    An = np.empty(Dk.shape, np.complex128)
+    An.real = (Xn[k] / Dk)
+    An.imag = (Yn[k] / Dk)
+    nls = [(n, l) for n in range(deg + 1) for l in range(n + 1) if (n - l) % 2 == 0]
+    pick = nls if len(nls) <= 9 else [nls[0], nls[1], nls[2], nls[3], nls[len(nls) // 2], nls[-4], nls[-3], nls[-2], nls[-1]]
+    lines, refs = [], []
+    for (n, l) in pick:
+        Al = np.ascontiguousarray(An ** l) if l >= 2 else (An.copy() if l == 1 else np.ones_like(An))
+        refs.append(complex(_zernike.znl(Dk, Al, frac, n, l)))
+        lines.append(f"c19 kind=znl d={core.fmt_floats(Dk)} are={core.fmt_floats(Al.real.copy())} "
+                     f"aim={core.fmt_floats(Al.imag.copy())} p={core.fmt_floats(frac)} n={n} l={l}")
+    H, W = im.shape
+    full = (f"c19 kind=zernike shape={H},{W} data={core.fmt_floats(P.astype(np.float64))} "
+            f"cm={core.fmt_floats(np.array([c0, c1]))} radius={core.fmt_floats(np.array([float(R)]))} degree={deg}")
+    rim = np.ascontiguousarray(np.rot90(im))
+    rot = (f"c19 kind=zernike shape={W},{H} data={core.fmt_floats(rim.ravel().astype(np.float64))} "
+           f"cm={core.fmt_floats(np.array([W - 1 - c1, c0]))} radius={core.fmt_floats(np.array([float(R)]))} degree={deg}")
+    drv = core.drive(lines + [full, rot])
+    for (n, l), ref, d in zip(pick, refs, drv):
+        zm = core.floats(d['z'])
+        zm = complex(zm[0], zm[1])
+        if not abs(zm - ref) <= 1e-9 * max(1.0, abs(ref)):
+            out.append(dict(kind='model', key='zernike:znl-model', detail=dict(n=n, l=l, real=[ref.real, ref.imag], model=[zm.real, zm.imag])))
+            break
+    dfull, drot = drv[-2], drv[-1]
+    if int(dfull['nsel']) != int(k.sum()):
+        out.append(dict(kind='model', key='zernike:selection-model', detail=dict(real=int(k.sum()), model=int(dfull['nsel']))))
+        return out
+    am = core.floats(dfull['abs'])
+    tol = 1e-9 * max(1.0, float(np.max(np.abs(z))))
+    if am.shape != z.shape or not float(np.max(np.abs(am - z))) <= tol:
+        out.append(dict(kind='model', key='zernike:moments-model', detail=dict(
+            maxdiff=float(np.max(np.abs(am - z))) if am.shape == z.shape else None, real=z.tolist()[:6], model=am.tolist()[:6])))
+    # the Float instance of C19_zernike_rot90: z(rot90 im) = i^l z(im) up to rounding; exact when the centre moves exactly
+    if cm is not None:
+        zz = core.floats(dfull['z']).reshape(-1, 2)
+        zr = core.floats(drot['z']).reshape(-1, 2)
+        ok = zz.shape == zr.shape == (len(nls), 2)
+        if ok:
+            for (n, l), a, b in zip(nls, zz, zr):
+                want = complex(a[0], a[1]) * (1j ** l)
+                if not abs(complex(b[0], b[1]) - want) <= tol:
+                    ok = False
+                    break
+        if not ok:
+            out.append(dict(kind='model', key='zernike:model-rot90', detail=dict(z=zz.tolist()[:4], zrot=zr.tolist()[:4])))
+    return out
+
+
 def _eval_zernike(case):
     import mahotas.features as mf
     im = np.array(case['data'], dtype=np.float64).reshape(case['shape'])
@@ -381,6 +459,7 @@ def _eval_zernike(case):
         # and the REAL kernel _zernike.znl fed with them must reproduce the real zernike_moments
         f = _zernike_weights_tie(im, R, deg, cm, z, case['scale'])
         findings.extend(f)
+        findings.extend(_zernike_model_tie(im, R, deg, cm, z))
         s = case['scale']
         zs = np.asarray(mf.zernike_moments(im * s, R, deg, cm=cm))
         if zs.shape != z.shape or not float(np.max(np.abs(zs - z))) <= tol:
